@@ -47,11 +47,15 @@ def run(tier, replay=None):
     fc, fm, _, _ = C.emit_and_replay(run, "MC_DateZone", "MC_DateZone_fork.cfg", "c09_fork", ["datezone"], timeout=900, workers=4)
     for m in fm:
         run.mismatch({"kind": m["mismatch"]["what"], "input": m["mismatch"].get("pattern", "")}, m)
+    # ... and time: successive encodes render strictly increasing instants, to the last digit of a fraction
+    kc, km, _, _ = C.emit_and_replay(run, "MC_DateZone", "MC_DateZone_clock.cfg", "c09_clock", ["datezone"], timeout=900, workers=4)
+    for m in km:
+        run.mismatch({"kind": m["mismatch"]["what"], "input": m["mismatch"].get("pattern", "")}, m)
     # ... and the message's value is the concatenation of the fragments it arrives in (Fragments.tla)
     gc, gm, _, _ = C.emit_and_replay(run, "MC_Fragments", "MC_Fragments.cfg", "c09_fragments", ["fragments"], timeout=900, workers=2)
     for m in gm:
         run.mismatch({"kind": m["mismatch"]["what"], "input": m["mismatch"].get("pattern", "")}, m)
-    run.evaluations = len(allc) + len(zc) + len(fc) + len(gc)
+    run.evaluations = len(allc) + len(zc) + len(fc) + len(gc) + len(kc)
     run.nontrivial = sum(1 for c in allc if "{" in c["input"].replace("{{", "").replace("\\{", ""))
     if not run.mismatches and run.nontrivial < 1000:
         raise C.ToolError("vacuous run")
